@@ -67,7 +67,7 @@ func TestVerifC13_goldilocks(t *testing.T) {
 	defer r.Finish()
 	r.Rule("edwards448 public API: points PT = {O, +-kG, [(n+-1)/2]G, +-[s]G} built with FromAffine from the reference's coordinates (and decoded from its RFC 8032 encoding), " +
 		"scalars SC = curvealpha.Scalars(n, 448) as 56-byte little-endian; Add on PT x PT, Double/Neg on PT, ScalarMult on SC x PT, ScalarBaseMult on SC, " +
-		"CombinedMult on SCc x SCc x PTc (thorough: SC x SC x PT); results compared as affine coordinates and as RFC 8032 encodings; distinct = distinct (operation, operand names)")
+		"CombinedMult on SCc x SCc x PTc (thorough: SC x SC x PT); results compared as affine coordinates and as RFC 8032 encodings; before that, the predicates (Point.IsIdentity, Curve.IsOnCurve, Point.IsEqual against the expected point, Identity(), a computed identity T+(-T), the same point by another route, a different point) are queried directly on byte-identical copies of each freshly computed result, including the chain ((P+Q)-Q)-P; distinct = distinct (operation, operand names)")
 	var e Curve
 	ref := ecurve.Edwards448()
 	N := ref.N
@@ -91,11 +91,53 @@ func TestVerifC13_goldilocks(t *testing.T) {
 	bad := func(op, class, id, what string, payload interface{}) {
 		r.Violation("C13|goldilocks."+op+"|"+curvealpha.CoarseKey(class), id, what, payload)
 	}
+	mkRef := func(P ecurve.Point) *Point {
+		x, y := c13Elt(P.X.A), c13Elt(P.Y.A)
+		Q, _ := FromAffine(&x, &y)
+		return Q
+	}
+	// preds queries the package's predicates DIRECTLY on byte-identical copies of a
+	// freshly computed value (one copy per query), before anything normalises it.
+	Tp := ref.BaseMult(big.NewInt(0x51ed27))
+	preds := func(op, class, id string, got *Point, want ecurve.Point, payload interface{}) {
+		fresh := func() *Point { f := *got; return &f }
+		isID := ref.IsIdentity(want)
+		kind := "non-identity"
+		if isID {
+			kind = "identity"
+			r.Count("identity_results_queried", 1)
+		} else {
+			r.Count("non_identity_results_queried", 1)
+		}
+		fail := func(pred string, v, exp bool) {
+			if v != exp {
+				bad(op, "predicate:"+pred+"|fresh-result|"+kind+"|"+class, id,
+					fmt.Sprintf("%s: %s = %v on the freshly computed result (raw coordinates %v), the reference says %v (result should be %v)", id, pred, v, *got, exp, want), payload)
+			}
+		}
+		fail("IsIdentity", fresh().IsIdentity(), isID)
+		fail("IsOnCurve", e.IsOnCurve(fresh()), true)
+		fail("IsEqual(expected)", fresh().IsEqual(mkRef(want)), true)
+		fail("expected.IsEqual(result)", mkRef(want).IsEqual(fresh()), true)
+		fail("IsEqual(Identity())", fresh().IsEqual(e.Identity()), isID)
+		CI := mkRef(Tp)
+		CI.Add(mkRef(ref.Neg(Tp))) // an identity produced by arithmetic, left in projective form
+		ci := *CI
+		fail("(T+(-T)).IsIdentity", ci.IsIdentity(), true)
+		fail("IsEqual(T+(-T))", fresh().IsEqual(CI), isID)
+		fail("(T+(-T)).IsEqual(result)", CI.IsEqual(fresh()), isID)
+		alt := mkRef(ref.Sub(want, Tp))
+		alt.Add(mkRef(Tp)) // the same point by another route
+		fail("IsEqual(other-route)", fresh().IsEqual(alt), true)
+		fail("IsEqual(different-point)", fresh().IsEqual(mkRef(ref.Add(want, ref.G))), false)
+		fail("IsEqual(-expected)", fresh().IsEqual(mkRef(ref.Neg(want))), isID)
+	}
 	check := func(op, class, id string, got *Point, want ecurve.Point, payload interface{}) {
 		if got == nil {
 			bad(op, "nil-result|"+class, id, id+": nil result", payload)
 			return
 		}
+		preds(op, class, id, got, want, payload)
 		g := *got
 		x, y, ok := c13Affine(&g.x, &g.y, &g.z)
 		if !c13Same(ref, want, x, y, ok) {
@@ -175,8 +217,15 @@ func TestVerifC13_goldilocks(t *testing.T) {
 				var back *Point
 				if try("Add", id+"/back", func() { back = e.Add(out, nq) }) {
 					check("Add", "projective-operand|P="+a.Name+"|Q="+b.Name, id+"/back", back, refPts[i], nil)
+					// chain to the identity through non-normalised operands: ((P+Q)-Q)-P
+					np := mk(i)
+					np.Neg()
+					var zero *Point
+					if try("Add", id+"/chain", func() { zero = e.Add(back, np) }) {
+						check("Add", "chain-to-identity|P="+a.Name+"|Q="+b.Name, id+"/chain", zero, ref.Identity(), nil)
+					}
 				}
-				r.Eval(1)
+				r.Eval(2)
 			}
 		}
 		if j == 0 {
@@ -295,6 +344,8 @@ func TestVerifC13_goldilocks(t *testing.T) {
 	r.RequireCounter("comb_Q_eq_G_and_m_eq_n", 5)
 	r.RequireCounter("comb_m_eq_neg_n", 3)
 	r.RequireCounter("comb_Q_identity", 10)
+	r.RequireCounter("identity_results_queried", 300)
+	r.RequireCounter("non_identity_results_queried", 1000)
 }
 
 // ------------------------------------------------------------------ twist
@@ -304,7 +355,7 @@ func TestVerifC13_goldilocks_twist(t *testing.T) {
 	defer r.Finish()
 	r.Rule("internal twist curve -x^2+y^2 = 1-39082x^2y^2 and the 4-isogenies: push(P) = Iso448(P) and pull(push(P)) = [4]P on PT; " +
 		"twistCurve.ScalarMult on SC x Iso448(PT), twistCurve.ScalarBaseMult on SC (base = Iso448(G)), twistCurve.CombinedMult on SCc x SCc x Iso448(PTc), " +
-		"twistPoint.Double and mixAdd on PT / PT x PT; distinct = distinct (operation, operand names)")
+		"twistPoint.Double and mixAdd on PT / PT x PT; the Point predicates (IsIdentity, IsOnCurve, IsEqual) are asked about the dual-isogeny image of every freshly computed twist point; distinct = distinct (operation, operand names)")
 	var e Curve
 	var tc twistCurve
 	ref, tw := ecurve.Edwards448(), ecurve.Twist448()
@@ -327,6 +378,38 @@ func TestVerifC13_goldilocks_twist(t *testing.T) {
 		return Q
 	}
 	checkTw := func(op, class, id string, got *twistPoint, want ecurve.Point, payload interface{}) {
+		{
+			// twistPoint has no predicates of its own: they are asked about the image of the fresh
+			// (non-normalised) result under the dual isogeny, which is the identity exactly when the
+			// result is (odd-order points) and must equal Iso448Dual(want).
+			isID := tw.IsIdentity(want)
+			kind := "non-identity"
+			if isID {
+				kind = "identity"
+				r.Count("identity_results_queried", 1)
+			} else {
+				r.Count("non_identity_results_queried", 1)
+			}
+			down := func() *Point { f := *got; return tc.push(&f) }
+			fail := func(pred string, v, exp bool) {
+				if v != exp {
+					bad(op, "predicate:"+pred+"|fresh-result|"+kind+"|"+class, id,
+						fmt.Sprintf("%s: %s = %v on the dual-isogeny image of the freshly computed twist point %v, expected %v", id, pred, v, *got, exp), payload)
+				}
+			}
+			wantDown, okd := ecurve.Iso448Dual(want)
+			if p, what := verifmc.Try(func() {
+				fail("push.IsIdentity", down().IsIdentity(), isID)
+				fail("push.IsOnCurve", e.IsOnCurve(down()), true)
+				fail("push.IsEqual(Identity())", down().IsEqual(e.Identity()), isID)
+				if okd {
+					fail("push.IsEqual(expected)", down().IsEqual(mkEd(wantDown)), true)
+					fail("expected.IsEqual(push)", mkEd(wantDown).IsEqual(down()), true)
+				}
+			}); p {
+				bad(op, "panic:"+verifmc.PanicClass(what)+"|predicates|"+class, id, what, payload)
+			}
+		}
 		g := *got
 		x, y, ok := c13Affine(&g.x, &g.y, &g.z)
 		if !c13Same(tw, want, x, y, ok) {
@@ -489,5 +572,7 @@ func TestVerifC13_goldilocks_twist(t *testing.T) {
 	})
 	r.RequireCounter("even_scalar", 50)
 	r.RequireCounter("scalar_multiple_of_order", 10)
+	r.RequireCounter("identity_results_queried", 100)
+	r.RequireCounter("non_identity_results_queried", 1000)
 	r.RequireCounter("comb_Q_eq_G_and_m_eq_n", 5)
 }
